@@ -1019,6 +1019,11 @@ def oracle_requests(c, r):
     return [(op, pl) for _, op, pl in _plan(c, r)]
 
 
+def _how(c):
+    return ("in-place edits" if c["op"] == "c05.history"
+            else "the earlier calls (instance untouched by the caller, returned witnesses modified by the caller)")
+
+
 def judge(c, r, mres):
     if not (isinstance(r, list) and len(r) == 2 and r[0] == 0):
         txt = r
@@ -1034,12 +1039,12 @@ def judge(c, r, mres):
         for k, (dom_i, ballots) in enumerate(steps):
             dom = DOMAINS[dom_i]
             if val[k][0] != ans[("ref", k)]:
-                return ("call %d (%s) on the same instance object after in-place edits: verdict %s, verified reference "
+                return ("call %d (%s) on the same instance object after %s: verdict %s, verified reference "
                         "decider on the current ballots %r says %s"
-                        % (k + 1, dom, bool(val[k][0]), ballots, bool(ans[("ref", k)])))
+                        % (k + 1, dom, _how(c), bool(val[k][0]), ballots, bool(ans[("ref", k)])))
             if val[k][0] == 1 and ans.get(("witness", k)) != 1:
-                return ("call %d (%s) on the same instance object after in-place edits: witness %r rejected by the "
-                        "verified checker for the current ballots %r" % (k + 1, dom, val[k][1], ballots))
+                return ("call %d (%s) on the same instance object after %s: witness %r rejected by the "
+                        "verified checker for the current ballots %r" % (k + 1, dom, _how(c), val[k][1], ballots))
         return None
     if c["op"] == "c05.cimat":
         if "mat" not in ans:
